@@ -14,6 +14,8 @@ package validating
 //@ func forbidSpecialQoSClassAndPriorityClass [C13]
 //@   requires cfgOK()
 //@   ensures #count: len(result) == ((extension.podQoS(pod) == qoSClass && inClasses(priorityClasses, extension.podPrio(pod))) ? 1 : 0)
+//@   ensures #count2: len(priorityClasses) == 2 ==> len(result) == ((extension.podQoS(pod) == qoSClass && (extension.podPrio(pod) == priorityClasses[0] || extension.podPrio(pod) == priorityClasses[1])) ? 1 : 0)   // the two instances used by the admission handler, without the existential
+//@   ensures #count4: len(priorityClasses) == 4 ==> len(result) == ((extension.podQoS(pod) == qoSClass && (extension.podPrio(pod) == priorityClasses[0] || extension.podPrio(pod) == priorityClasses[1] || extension.podPrio(pod) == priorityClasses[2] || extension.podPrio(pod) == priorityClasses[3])) ? 1 : 0)
 //@   modifies nothing
 //@   loop 1 invariant 0 <= $i && $i <= len(priorityClasses)
 //@   loop 1 invariant !found && len(allErrs) == 0
